@@ -818,7 +818,13 @@ func runEpoch(res *vh.Result, emit func(Event), seed int64, epoch, win0, nw, ncl
 		o.T = "Count"
 		ops = append(ops, o)
 		aw := 100000 + epoch
-		for _, e := range func() []Event { mmu.Lock(); defer mmu.Unlock(); x := append([]Event{}, mevs...); mevs = mevs[:0]; return x }() {
+		for _, e := range func() []Event {
+			mmu.Lock()
+			defer mmu.Unlock()
+			x := append([]Event{}, mevs...)
+			mevs = mevs[:0]
+			return x
+		}() {
 			e.W, e.Epoch = aw, epoch
 			emit(e)
 		}
